@@ -268,12 +268,16 @@ def run(rep, ctx):
     with rep.guard("R03.9"):
         from . import c04 as _c04w
         _c04w.within_basis(rep, M, "R03.9")
+        _c04w.factors_times_cell(rep, M, "R03.9")
+        _c04w.both_directions_alike(rep, M, "R03.9")
     rep.rule("R03.10", "the stack is searched on a working copy whose atoms are inside the cell: missing cell vectors completed, atoms outside along a non-periodic axis always "
              "trigger enlargement and centring (shared with C04; the stacking direction may be non-periodic)")
     with rep.guard("R03.10"):
         c01.r01_14(rep, M, "R03.10")
         c01.r01_13(rep, M, "R03.10")
         c01.r01_6(rep, M, "R03.10")
+        from . import c04 as _c04ax
+        _c04ax.axis_index_typing(rep, M, "R03.10", GC)
     rep.rule("R03.11", "no function keeps results in module-level state or functools caches (answers do not depend on what the process analysed before)")
     with rep.guard("R03.11"):
         from .. import symrules as _SRms
